@@ -1,4 +1,438 @@
 import LcModel.Pool.Model
 /-! helper lemmas for the Pool layer -/
 namespace Pool
+
+/-! ## resolve -/
+
+theorem goInputs_eq_none (s : St) (seen l : List OutPointRef) :
+    resolve.goInputs s seen l = none ↔
+      l.Nodup ∧ (∀ o ∈ l, o ∉ seen) ∧ ∀ o ∈ l, cellKnown s o = true := by
+  induction l generalizing seen with
+  | nil => simp [resolve.goInputs]
+  | cons o rest ih =>
+    simp only [resolve.goInputs]
+    split
+    · simp_all
+    · split
+      · simp_all
+      · rw [ih]; grind
+
+theorem resolve_eq_none (s : St) (inputs deps : List OutPointRef) :
+    resolve s inputs deps = none ↔
+      inputs.Nodup ∧ (∀ o ∈ inputs, cellKnown s o = true) ∧ ∀ o ∈ deps, cellKnown s o = true := by
+  unfold resolve
+  split
+  · rename_i r h
+    have : ¬ (resolve.goInputs s [] inputs = none) := by simp [h]
+    rw [goInputs_eq_none] at this
+    simp at this ⊢
+    grind
+  · rename_i h
+    rw [goInputs_eq_none] at h
+    simp [List.all_eq_true]
+    grind
+
+theorem verifyTx_eq_ok (s : St) (inputs deps : List OutPointRef) (v : Verdicts) (c : Nat) :
+    verifyTx s inputs deps v = .ok c ↔
+      v.nonContextual = true ∧ inputs.Nodup ∧ (∀ o ∈ inputs ++ deps, cellKnown s o = true) ∧
+      v.timeRelative = true ∧ v.capacity = true ∧ v.script = some c := by
+  unfold verifyTx
+  split
+  · simp_all
+  · split
+    · rename_i r h
+      have : ¬ (resolve s inputs deps = none) := by simp [h]
+      rw [resolve_eq_none] at this
+      simp only [List.mem_append]
+      grind
+    · rename_i h
+      rw [resolve_eq_none] at h
+      simp only [List.mem_append]
+      split
+      · simp_all
+      · split
+        · simp_all
+        · split <;> simp_all <;> grind
+
+/-! ## pool: uniqueness of entries per hash -/
+
+theorem hash_inj {pool : List Entry} (hnd : (pool.map (·.hash)).Nodup) {e e' : Entry}
+    (he : e ∈ pool) (he' : e' ∈ pool) (hh : e.hash = e'.hash) : e = e' := by
+  induction pool with
+  | nil => simp at he
+  | cons a rest ih =>
+    simp only [List.map_cons, List.nodup_cons, List.mem_map, not_exists, not_and] at hnd
+    simp only [List.mem_cons] at he he'
+    grind
+
+theorem find?_hash_of_mem {pool : List Entry} (hnd : (pool.map (·.hash)).Nodup) {e : Entry}
+    (he : e ∈ pool) : pool.find? (·.hash = e.hash) = some e := by
+  cases hf : pool.find? (·.hash = e.hash) with
+  | none =>
+    rw [List.find?_eq_none] at hf
+    have := hf e he
+    simp at this
+  | some e' =>
+    have h1 := List.mem_of_find?_eq_some hf
+    have h2 := List.find?_some hf
+    simp only [decide_eq_true_eq] at h2
+    rw [hash_inj hnd h1 he h2]
+
+theorem find?_hash_eq_none {pool : List Entry} {h : Nat} :
+    pool.find? (·.hash = h) = none ↔ ∀ e ∈ pool, e.hash ≠ h := by
+  simp [List.find?_eq_none]
+
+/-! ## push -/
+
+theorem push_limit (s : St) (h c o : Nat) : (push s h c o).limit = s.limit := rfl
+theorem push_stored (s : St) (h c o : Nat) : (push s h c o).stored = s.stored := rfl
+theorem push_opened (s : St) (h c o : Nat) : (push s h c o).opened = s.opened := rfl
+
+/-- the pool before the eviction test -/
+def pushed (s : St) (h c o : Nat) : List Entry :=
+  s.pool.filter (·.hash ≠ h) ++
+    [⟨h, c, o, ((s.pool.find? (·.hash = h)).map (·.announced)).getD []⟩]
+
+theorem push_pool (s : St) (h c o : Nat) :
+    (push s h c o).pool =
+      if s.limit < (pushed s h c o).length then (pushed s h c o).drop 1 else pushed s h c o := rfl
+
+theorem pushed_hashes_nodup (s : St) (h c o : Nat) (hnd : (s.pool.map (·.hash)).Nodup) :
+    ((pushed s h c o).map (·.hash)).Nodup := by
+  unfold pushed
+  rw [List.map_append, List.nodup_append]
+  refine ⟨?_, by simp, ?_⟩
+  · exact hnd.sublist (List.Sublist.map _ List.filter_sublist)
+  · intro a ha b hb
+    simp only [List.map_cons, List.map_nil, List.mem_singleton] at hb
+    simp only [List.mem_map, List.mem_filter, decide_eq_true_eq] at ha
+    grind
+
+theorem push_hashes_nodup (s : St) (h c o : Nat) (hnd : (s.pool.map (·.hash)).Nodup) :
+    ((push s h c o).pool.map (·.hash)).Nodup := by
+  rw [push_pool]
+  have := pushed_hashes_nodup s h c o hnd
+  split
+  · exact this.sublist (List.Sublist.map _ (List.drop_sublist _ _))
+  · exact this
+
+theorem pushed_length_le (s : St) (h c o : Nat) :
+    (pushed s h c o).length ≤ s.pool.length + 1 := by
+  unfold pushed
+  have := List.length_filter_le (fun e : Entry => decide (e.hash ≠ h)) s.pool
+  simp only [List.length_append, List.length_cons, List.length_nil]
+  omega
+
+theorem push_length_le (s : St) (h c o : Nat) (hle : s.pool.length ≤ s.limit) :
+    (push s h c o).pool.length ≤ s.limit := by
+  rw [push_pool]
+  have := pushed_length_le s h c o
+  split
+  · rw [List.length_drop]; omega
+  · omega
+
+/-! ## fetchForBroadcast -/
+
+/-- what `fetchForBroadcast` does to one entry -/
+def mark (p : Nat) (e : Entry) : Entry :=
+  if e.announced.contains p then e else { e with announced := p :: e.announced }
+
+theorem ffb_fst (pool : List Entry) (p : Nat) :
+    (fetchForBroadcast pool p).1 = pool.map (mark p) := rfl
+
+theorem ffb_snd (pool : List Entry) (p : Nat) :
+    (fetchForBroadcast pool p).2 =
+      (pool.filter (fun e => !e.announced.contains p)).map (·.hash) := rfl
+
+theorem mark_hash (p : Nat) (e : Entry) : (mark p e).hash = e.hash := by
+  unfold mark; split <;> rfl
+
+theorem mem_mark_self (p : Nat) (e : Entry) : p ∈ (mark p e).announced := by
+  unfold mark; split <;> simp_all
+
+theorem mem_mark_of_mem (p : Nat) (e : Entry) {q : Nat} (h : q ∈ e.announced) :
+    q ∈ (mark p e).announced := by
+  unfold mark; split <;> simp_all
+
+theorem ffb_hashes (pool : List Entry) (p : Nat) :
+    (fetchForBroadcast pool p).1.map (·.hash) = pool.map (·.hash) := by
+  simp [ffb_fst, List.map_map, Function.comp_def, mark_hash]
+
+theorem ffb_snd_subset (pool : List Entry) (p : Nat) :
+    ∀ x ∈ (fetchForBroadcast pool p).2, x ∈ pool.map (·.hash) := by
+  intro x hx
+  simp only [ffb_snd, List.mem_map, List.mem_filter] at hx ⊢
+  grind
+
+/-! ## announcements as pairs -/
+
+/-- announcements `(peer, hashes)` flattened to pairs `(hash, peer)` -/
+def flat (anns : List (Nat × List Nat)) : List (Nat × Nat) :=
+  anns.flatMap (fun a => a.2.map (fun h => (h, a.1)))
+
+theorem flat_nil : flat [] = [] := rfl
+
+theorem flat_append (a b : List (Nat × List Nat)) : flat (a ++ b) = flat a ++ flat b := by
+  simp [flat, List.flatMap_append]
+
+theorem flat_single (p : Nat) (hs : List Nat) : flat [(p, hs)] = hs.map (fun h => (h, p)) := by
+  simp [flat]
+
+theorem flat_opt (p : Nat) (hs : List Nat) :
+    flat (if hs.isEmpty then [] else [(p, hs)]) = hs.map (fun h => (h, p)) := by
+  split
+  · rename_i h; simp_all [flat]
+  · exact flat_single p hs
+
+/-! ## tick -/
+
+def tickF (acc : St × List (Nat × List Nat)) (peer : Nat) : St × List (Nat × List Nat) :=
+  let (pool, hs) := fetchForBroadcast acc.1.pool peer
+  ({ acc.1 with pool := pool }, if hs.isEmpty then acc.2 else acc.2 ++ [(peer, hs)])
+
+theorem step_tick (s : St) : step s .tick = s.opened.foldl tickF (s, []) := rfl
+
+theorem tickF_pool (acc : St × List (Nat × List Nat)) (p : Nat) :
+    (tickF acc p).1.pool = (fetchForBroadcast acc.1.pool p).1 := rfl
+theorem tickF_limit (acc : St × List (Nat × List Nat)) (p : Nat) :
+    (tickF acc p).1.limit = acc.1.limit := rfl
+theorem tickF_snd (acc : St × List (Nat × List Nat)) (p : Nat) :
+    (tickF acc p).2 =
+      if (fetchForBroadcast acc.1.pool p).2.isEmpty then acc.2
+      else acc.2 ++ [(p, (fetchForBroadcast acc.1.pool p).2)] := rfl
+
+theorem flat_tickF (acc : St × List (Nat × List Nat)) (p : Nat) :
+    flat (tickF acc p).2 =
+      flat acc.2 ++ (fetchForBroadcast acc.1.pool p).2.map (fun h => (h, p)) := by
+  rw [tickF_snd]
+  split
+  · rename_i h; simp_all
+  · rw [flat_append, flat_single]
+
+theorem foldl_tickF_hashes (ps : List Nat) (acc : St × List (Nat × List Nat)) :
+    (ps.foldl tickF acc).1.pool.map (·.hash) = acc.1.pool.map (·.hash) ∧
+    (ps.foldl tickF acc).1.limit = acc.1.limit := by
+  induction ps generalizing acc with
+  | nil => simp
+  | cons p rest ih =>
+    rw [List.foldl_cons]
+    obtain ⟨h1, h2⟩ := ih (tickF acc p)
+    rw [h1, h2, tickF_pool, ffb_hashes, tickF_limit]
+    exact ⟨rfl, rfl⟩
+
+theorem foldl_tickF_anns (ps : List Nat) (acc : St × List (Nat × List Nat))
+    (h : ∀ a ∈ acc.2, ∀ x ∈ a.2, x ∈ acc.1.pool.map (·.hash)) :
+    ∀ a ∈ (ps.foldl tickF acc).2, ∀ x ∈ a.2, x ∈ acc.1.pool.map (·.hash) := by
+  induction ps generalizing acc with
+  | nil => simpa using h
+  | cons p rest ih =>
+    rw [List.foldl_cons]
+    have := ih (tickF acc p)
+    rw [tickF_pool, ffb_hashes] at this
+    apply this
+    intro a ha x hx
+    rw [tickF_snd] at ha
+    split at ha
+    · exact h a ha x hx
+    · simp only [List.mem_append, List.mem_singleton] at ha
+      rcases ha with ha | ha
+      · exact h a ha x hx
+      · subst ha
+        exact ffb_snd_subset _ _ x hx
+
+/-! ## step -/
+
+theorem sendTransaction_fst (s : St) (h o : Nat) (i d : List OutPointRef) (v : Verdicts) :
+    (sendTransaction s h o i d v).1 = s ∨ ∃ c, (sendTransaction s h o i d v).1 = push s h c o := by
+  unfold sendTransaction
+  split
+  · exact .inr ⟨_, rfl⟩
+  · exact .inl rfl
+
+theorem step_connect_fst (s : St) (p : Nat) (fresh : Bool) :
+    (step s (.connect p fresh)).1.pool =
+        (if (!s.pool.isEmpty && fresh) = true then (fetchForBroadcast s.pool p).1 else s.pool) ∧
+    (step s (.connect p fresh)).1.limit = s.limit := by
+  simp only [step]
+  split <;> exact ⟨rfl, rfl⟩
+
+theorem step_connect_snd (s : St) (p : Nat) (fresh : Bool) :
+    (step s (.connect p fresh)).2 =
+      if (!s.pool.isEmpty && fresh) = true then
+        (if (fetchForBroadcast s.pool p).2.isEmpty then [] else [(p, (fetchForBroadcast s.pool p).2)])
+      else [] := by
+  simp only [step]
+  split <;> rfl
+
+theorem step_poolInv (s : St) (ev : Ev)
+    (h : s.pool.length ≤ s.limit ∧ (s.pool.map (·.hash)).Nodup) :
+    (step s ev).1.pool.length ≤ (step s ev).1.limit ∧ ((step s ev).1.pool.map (·.hash)).Nodup := by
+  cases ev with
+  | submit hash outputs inputs deps v =>
+    simp only [step]
+    rcases sendTransaction_fst s hash outputs inputs deps v with e | ⟨c, e⟩
+    · rw [e]; exact h
+    · rw [e]; exact ⟨push_length_le s _ _ _ h.1, push_hashes_nodup s _ _ _ h.2⟩
+  | connect p fresh =>
+    obtain ⟨h1, h2⟩ := step_connect_fst s p fresh
+    rw [h2]
+    have hl : (step s (.connect p fresh)).1.pool.map (·.hash) = s.pool.map (·.hash) := by
+      rw [h1]; split
+      · exact ffb_hashes _ _
+      · rfl
+    have hlen := congrArg List.length hl
+    simp only [List.length_map] at hlen
+    rw [hl, hlen]; exact h
+  | disconnect p => exact h
+  | tick =>
+    rw [step_tick]
+    obtain ⟨h1, h2⟩ := foldl_tickF_hashes s.opened (s, [])
+    have hlen := congrArg List.length h1
+    simp only [List.length_map] at hlen
+    rw [h1, h2, hlen]; exact h
+  | commit hash outputs => exact h
+
+theorem step_anns_subset (s : St) (ev : Ev) :
+    ∀ a ∈ (step s ev).2, ∀ x ∈ a.2, x ∈ s.pool.map (·.hash) := by
+  cases ev with
+  | submit hash outputs inputs deps v => simp [step]
+  | connect p fresh =>
+    rw [step_connect_snd]
+    intro a ha x hx
+    split at ha
+    · split at ha
+      · simp at ha
+      · simp only [List.mem_singleton] at ha
+        subst ha
+        exact ffb_snd_subset _ _ x hx
+    · simp at ha
+  | disconnect p => simp [step]
+  | tick =>
+    rw [step_tick]
+    exact foldl_tickF_anns s.opened (s, []) (by simp)
+  | commit hash outputs => simp [step]
+
+/-! ## consistency of an announcement log with the pool -/
+
+/-- every logged pair `(hash, peer)` is recorded in the pool entry of that hash -/
+def Cov (log : List (Nat × Nat)) (pool : List Entry) : Prop :=
+  ∀ hp ∈ log, ∃ e ∈ pool, e.hash = hp.1 ∧ hp.2 ∈ e.announced
+
+structure Consistent (log : List (Nat × Nat)) (s : St) : Prop where
+  nodup : log.Nodup
+  cov : Cov log s.pool
+  hashes : (s.pool.map (·.hash)).Nodup
+
+theorem ffb_new_nodup (pool : List Entry) (p : Nat) (hnd : (pool.map (·.hash)).Nodup) :
+    ((fetchForBroadcast pool p).2.map (fun h => (h, p))).Nodup := by
+  rw [ffb_snd, List.map_map]
+  have h1 : ((pool.filter (fun e => !e.announced.contains p)).map (·.hash)).Nodup :=
+    hnd.sublist (List.Sublist.map _ List.filter_sublist)
+  unfold List.Nodup at h1 ⊢
+  rw [List.pairwise_map] at h1 ⊢
+  exact h1.imp (by intro a b hab; simpa using hab)
+
+theorem ffb_consistent (log : List (Nat × Nat)) (pool : List Entry) (p : Nat)
+    (h1 : log.Nodup) (h2 : Cov log pool) (h3 : (pool.map (·.hash)).Nodup) :
+    (log ++ (fetchForBroadcast pool p).2.map (fun h => (h, p))).Nodup ∧
+    Cov (log ++ (fetchForBroadcast pool p).2.map (fun h => (h, p))) (fetchForBroadcast pool p).1 := by
+  constructor
+  · rw [List.nodup_append]
+    refine ⟨h1, ffb_new_nodup pool p h3, ?_⟩
+    intro a ha b hb hab
+    subst hab
+    simp only [ffb_snd, List.mem_map, List.mem_filter] at hb
+    obtain ⟨x, ⟨e, ⟨he, hpe⟩, rfl⟩, rfl⟩ := hb
+    obtain ⟨e', he', hh, hp⟩ := h2 _ ha
+    have := hash_inj h3 he' he hh
+    subst this
+    simp_all
+  · intro hp hhp
+    rw [ffb_fst]
+    rw [List.mem_append] at hhp
+    rcases hhp with hhp | hhp
+    · obtain ⟨e, he, hh, hpe⟩ := h2 _ hhp
+      exact ⟨mark p e, List.mem_map_of_mem he, by rw [mark_hash, hh], mem_mark_of_mem p e hpe⟩
+    · simp only [ffb_snd, List.mem_map, List.mem_filter] at hhp
+      obtain ⟨x, ⟨e, ⟨he, _⟩, rfl⟩, rfl⟩ := hhp
+      exact ⟨mark p e, List.mem_map_of_mem he, mark_hash p e, mem_mark_self p e⟩
+
+theorem pushed_cov (log : List (Nat × Nat)) (s : St) (h c o : Nat)
+    (hcov : Cov log s.pool) (hnd : (s.pool.map (·.hash)).Nodup) :
+    Cov log (pushed s h c o) := by
+  intro hp hhp
+  obtain ⟨e, he, hh, hpe⟩ := hcov hp hhp
+  unfold pushed
+  by_cases heq : e.hash = h
+  · subst heq
+    rw [find?_hash_of_mem hnd he]
+    exact ⟨_, List.mem_append_right _ (List.mem_singleton.2 rfl), hh, hpe⟩
+  · refine ⟨e, List.mem_append_left _ ?_, hh, hpe⟩
+    simp only [List.mem_filter, decide_eq_true_eq]
+    exact ⟨he, heq⟩
+
+theorem push_consistent (log : List (Nat × Nat)) (s : St) (h c o : Nat)
+    (hc : Consistent log s) (hroom : (s.pool.filter (·.hash ≠ h)).length < s.limit) :
+    Consistent log (push s h c o) := by
+  refine ⟨hc.nodup, ?_, push_hashes_nodup s h c o hc.hashes⟩
+  rw [push_pool, if_neg]
+  · exact pushed_cov log s h c o hc.cov hc.hashes
+  · unfold pushed
+    simp only [List.length_append, List.length_cons, List.length_nil]
+    omega
+
+theorem foldl_tickF_consistent (log : List (Nat × Nat)) (ps : List Nat)
+    (acc : St × List (Nat × List Nat)) (hc : Consistent (log ++ flat acc.2) acc.1) :
+    Consistent (log ++ flat (ps.foldl tickF acc).2) (ps.foldl tickF acc).1 := by
+  induction ps generalizing acc with
+  | nil => exact hc
+  | cons p rest ih =>
+    rw [List.foldl_cons]
+    apply ih
+    obtain ⟨h1, h2⟩ := ffb_consistent _ acc.1.pool p hc.nodup hc.cov hc.hashes
+    rw [flat_tickF, ← List.append_assoc]
+    refine ⟨h1, ?_, ?_⟩
+    · rw [tickF_pool]; exact h2
+    · rw [tickF_pool, ffb_hashes]; exact hc.hashes
+
+/-- the event does not evict: a submission finds room in the pool -/
+def NoEvict1 (s : St) : Ev → Prop
+  | .submit hash _ _ _ _ => (s.pool.filter (·.hash ≠ hash)).length < s.limit
+  | _ => True
+
+theorem step_consistent (log : List (Nat × Nat)) (s : St) (ev : Ev)
+    (hc : Consistent log s) (hne : NoEvict1 s ev) :
+    Consistent (log ++ flat (step s ev).2) (step s ev).1 := by
+  cases ev with
+  | submit hash outputs inputs deps v =>
+    simp only [step, flat_nil, List.append_nil]
+    rcases sendTransaction_fst s hash outputs inputs deps v with e | ⟨c, e⟩
+    · rw [e]; exact hc
+    · rw [e]; exact push_consistent log s hash c outputs hc hne
+  | connect p fresh =>
+    obtain ⟨h1, _⟩ := step_connect_fst s p fresh
+    rw [step_connect_snd]
+    by_cases hcond : (!s.pool.isEmpty && fresh) = true
+    · rw [if_pos hcond] at h1 ⊢
+      rw [flat_opt]
+      obtain ⟨g1, g2⟩ := ffb_consistent log s.pool p hc.nodup hc.cov hc.hashes
+      refine ⟨g1, ?_, ?_⟩
+      · rw [h1]; exact g2
+      · rw [h1, ffb_hashes]; exact hc.hashes
+    · rw [if_neg hcond] at h1 ⊢
+      rw [flat_nil, List.append_nil]
+      refine ⟨hc.nodup, ?_, ?_⟩
+      · rw [h1]; exact hc.cov
+      · rw [h1]; exact hc.hashes
+  | disconnect p =>
+    simp only [step, flat_nil, List.append_nil]
+    exact ⟨hc.nodup, hc.cov, hc.hashes⟩
+  | tick =>
+    rw [step_tick]
+    apply foldl_tickF_consistent
+    simpa [flat_nil] using hc
+  | commit hash outputs =>
+    simp only [step, flat_nil, List.append_nil]
+    exact ⟨hc.nodup, hc.cov, hc.hashes⟩
+
 end Pool
